@@ -129,7 +129,7 @@ def run_np_intervals(h, robust=False, extra_requires=True):
 def np_unit_intervals(h):
     t, self, alpha, kind, res = run_np_intervals(h)
     if kind == "raise":
-        return h.fail("C14.totality_above_the_gate", f"raised {res}")
+        return h.fail("C14.totality_above_the_gate", f"raised {res}", budget_factor=3)
     h.ensures("C14.totality_above_the_gate", True)
     lower, upper, conf = res.lower, res.upper, res.conformalization
     rows = z3.And(*t.nonrep.axis.facts())
